@@ -559,4 +559,45 @@ PROPS["C09"] = dict(
            dict(engine="e1", harness="c09_concurrent", weight=1)],
 )
 
+PROPS["C12"] = dict(
+    level="exploration",
+    engine_name="seqx + tool subprocesses",
+    rule="(A) c12_roundtrip (seqx, 28 cases): every directed multigraph with "
+         "n<=3 nodes and m<=3 (quick) / m<=4 (thorough) edges as an ORDERED "
+         "edge list x edge-data widths 0/1/4/8 x format versions 1 and 2: "
+         "written by FileGraphWriter / toFile and decoded by an independent "
+         "decoder in the harness; written by an independent encoder "
+         "(gr_format.h) and read by FileGraph::fromFile / "
+         "fromFileInterleaved, partFromFile at EVERY node range x edge-range "
+         "end, OCFileGraph (every segment), OfflineGraph, "
+         "BufferedGraph::loadGraph / loadPartialGraph at every node range. "
+         "(B) c12_convert.py (81 cases): the real graph-convert binary, built "
+         "from the tree, on every text input of <=3 (quick) / <=4 lines from "
+         "an 8-10 symbol alphabet (plain / weighted edge, comment, blank, "
+         "CRLF, id gap, duplicate, self loop) for edgelist2gr x 7 edge types, "
+         "csv2gr, dimacs2gr, and every documented gr->gr transform and "
+         "gr->text->gr round trip on all graphs with n<=3, m<=3, compared "
+         "with an independent Python reference of what each option "
+         "documents (undocumented choices accepted explicitly, listed as "
+         "ACCEPT in the script). Non-trivial = m>=1 and (odd m with data or a "
+         "node with >=2 out-edges) / proper sub-range holding an edge",
+    bound_note="exhaustive to the stated sizes; ids >= 2^32, version 2 "
+               "OUTPUT (only produced above 2^32-1 nodes) and the bipartite / "
+               "bsml / totem / neo4j / svmlight conversions are not covered",
+    assumptions=E2_ASSUME + [
+        "randomising conversions are checked for the documented invariant "
+        "only (same structure, weights in range)"],
+    deadline=dict(quick=300, thorough=3000),
+    technique="bounded-exhaustive enumeration of all graphs and text inputs "
+              "below a size through the real readers, writers and the "
+              "graph-convert tool, against independent encoders / decoders",
+    level_text="every input below the stated size runs through the real "
+               "code; decoders and references share no code with Galois",
+    level_note="single thread / one tool process per input",
+    design_ref="DESIGN.md 3, 7/C12",
+    parts=[dict(engine="e2", harness="c12_roundtrip", weight=1),
+           dict(engine="py", harness="c12_convert",
+                script="harness/c12_convert.py", weight=2)],
+)
+
 NOT_APPLICABLE = {}
